@@ -1,16 +1,504 @@
-//! Suite C01 (stub — replaced when the property's harness is built).
-#![allow(dead_code, unused_imports)]
+//! Suite C01: the REAL frame builders of `lorawan::creator` (both software crypto variants) and the
+//! `aes` / `cmac` crates behind `lorawan::default_crypto`, against the Lean model and specification.
+#![allow(dead_code)]
 use crate::util::*;
+use core::num::NonZeroU8;
+use lorawan::creator::{DataFrame, JoinAccept, JoinRequest, Payload};
+use lorawan::default_crypto::{DefaultCrypto, DefaultNetworkCrypto};
+use lorawan::keys::{Crypto, NetworkCrypto, AES128};
+use lorawan::parser::{CfList, DataFrameType, DevAddr, DevEui, DevNonce, Error, Frequency, JoinEui, JoinNonce, NetId};
+use lorawan::types::{ChannelMask, DLSettings};
+use std::panic::AssertUnwindSafe;
 
-pub fn eval(_op: &str) -> String {
-    "bad-op".into()
+pub fn arr<const N: usize>(s: &str) -> Option<[u8; N]> {
+    let v = unhex(s);
+    if s != "-" && s.len() != 2 * N {
+        return None;
+    }
+    v.try_into().ok()
+}
+
+pub fn ftype(s: &str) -> Option<DataFrameType> {
+    Some(match s {
+        "0" => DataFrameType::UnconfirmedUp,
+        "1" => DataFrameType::UnconfirmedDown,
+        "2" => DataFrameType::ConfirmedUp,
+        "3" => DataFrameType::ConfirmedDown,
+        _ => return None,
+    })
+}
+
+pub fn show(r: Option<Result<Vec<u8>, Error>>) -> String {
+    match r {
+        None => "PANIC".into(),
+        Some(Ok(b)) => hex(&b),
+        Some(Err(e)) => format!("ERR:{:?}", e),
+    }
+}
+
+/// after `build_into` returned `n` bytes the rest of the caller's buffer must still hold the fill byte
+fn rest_untouched(buf: &[u8], n: usize, fill: u8) -> bool {
+    buf[n.min(buf.len())..].iter().all(|&b| b == fill)
+}
+
+pub struct DataOp {
+    pub ft: DataFrameType,
+    pub addr: [u8; 4],
+    pub flags: u8,
+    pub fcnt: u32,
+    pub fopts: Vec<u8>,
+    pub port: Option<u8>,
+    pub pld: Vec<u8>,
+    pub nwk: [u8; 16],
+    pub app: Option<[u8; 16]>,
+}
+
+impl DataOp {
+    pub fn parse(w: &[&str]) -> Option<DataOp> {
+        Some(DataOp {
+            ft: ftype(w[0])?,
+            addr: arr::<4>(w[1])?,
+            flags: w[2].parse().ok()?,
+            fcnt: w[3].parse().ok()?,
+            fopts: unhex(w[4]),
+            port: if w[5] == "-" { None } else { Some(w[5].parse().ok()?) },
+            pld: unhex(w[6]),
+            nwk: arr::<16>(w[7])?,
+            app: if w[8] == "-" { None } else { Some(arr::<16>(w[8])?) },
+        })
+    }
+    pub fn build<C: Crypto>(&self, buf: &mut [u8], mk: impl Fn(&AES128) -> C) -> Result<Vec<u8>, Error> {
+        let payload = match self.port {
+            None => Payload::None,
+            Some(0) => Payload::MacCommands(&self.pld),
+            Some(p) => Payload::Data { f_port: NonZeroU8::new(p).unwrap(), data: &self.pld },
+        };
+        let frame = DataFrame {
+            frame_type: self.ft,
+            dev_addr: DevAddr::from_wire_bytes(self.addr),
+            adr: self.flags & 8 != 0,
+            adr_ack_req: self.flags & 4 != 0,
+            ack: self.flags & 2 != 0,
+            f_pending: self.flags & 1 != 0,
+            fcnt: self.fcnt,
+            f_opts: &self.fopts,
+            payload,
+        };
+        let nwk = mk(&AES128(self.nwk));
+        let app = self.app.map(|k| mk(&AES128(k)));
+        frame.build_into(buf, &nwk, app.as_ref()).map(|b| b.to_vec())
+    }
+}
+
+fn with_buf(buflen: &str, fill: &str, f: impl FnOnce(&mut [u8]) -> Result<Vec<u8>, Error>) -> String {
+    let (Ok(n), Some([fill])) = (buflen.parse::<usize>(), arr::<1>(fill)) else { return "bad-op".into() };
+    let mut buf = vec![fill; n];
+    let r = guarded(AssertUnwindSafe(|| f(&mut buf)));
+    let mut s = show(r.clone());
+    if let Some(Ok(b)) = &r {
+        if !rest_untouched(&buf, b.len(), fill) || buf[..b.len()] != b[..] {
+            s.push_str("+BUFFER-REST-MODIFIED");
+        }
+    } else if let Some(Err(_)) = &r {
+        if !rest_untouched(&buf, 0, fill) {
+            s.push_str("+BUFFER-MODIFIED-ON-ERROR");
+        }
+    }
+    s
+}
+
+pub fn cflist(s: &str) -> Option<Option<CfList>> {
+    if s == "-" {
+        return Some(None);
+    }
+    let (t, h) = s.split_at(1);
+    match t {
+        "D" => {
+            let b = arr::<15>(h)?;
+            let mut f = [Frequency::default(); 5];
+            for i in 0..5 {
+                f[i] = Frequency::from_wire_bytes([b[3 * i], b[3 * i + 1], b[3 * i + 2]]);
+            }
+            Some(Some(CfList::DynamicChannel(f)))
+        }
+        "F" => Some(Some(CfList::FixedChannel(ChannelMask::<9>::from(arr::<9>(h)?)))),
+        _ => None,
+    }
+}
+
+pub fn eval(op: &str) -> String {
+    let w: Vec<&str> = op.split_whitespace().collect();
+    match w.as_slice() {
+        ["C01", "data", rest @ ..] if rest.len() == 12 => {
+            let Some(d) = DataOp::parse(rest) else { return "bad-op".into() };
+            if d.port.is_none() && !d.pld.is_empty() {
+                return "bad-op".into();
+            }
+            match rest[11] {
+                "D" => with_buf(rest[9], rest[10], |buf| d.build(buf, DefaultCrypto::new)),
+                "N" => with_buf(rest[9], rest[10], |buf| d.build(buf, DefaultNetworkCrypto::new)),
+                _ => "bad-op".into(),
+            }
+        }
+        ["C01", "jr", jeui, deui, nonce, key, buflen, fill, variant] => {
+            let (Some(j), Some(d), Some(n), Some(k)) = (arr::<8>(jeui), arr::<8>(deui), arr::<2>(nonce), arr::<16>(key)) else {
+                return "bad-op".into();
+            };
+            let jr = JoinRequest {
+                join_eui: JoinEui::from_wire_bytes(j),
+                dev_eui: DevEui::from_wire_bytes(d),
+                dev_nonce: DevNonce::from_wire_bytes(n),
+            };
+            match *variant {
+                "D" => with_buf(buflen, fill, |buf| jr.build_into(buf, &DefaultCrypto::new(&AES128(k))).map(|b| b.to_vec())),
+                "N" => with_buf(buflen, fill, |buf| jr.build_into(buf, &DefaultNetworkCrypto::new(&AES128(k))).map(|b| b.to_vec())),
+                _ => "bad-op".into(),
+            }
+        }
+        ["C01", "ja", jn, nid, addr, dl, rxd, cfl, key, buflen, fill] => {
+            let (Some(jn), Some(nid), Some(addr), Some([dl]), Ok(rxd), Some(cfl), Some(k)) =
+                (arr::<3>(jn), arr::<3>(nid), arr::<4>(addr), arr::<1>(dl), rxd.parse::<u8>(), cflist(cfl), arr::<16>(key))
+            else {
+                return "bad-op".into();
+            };
+            let ja = JoinAccept {
+                join_nonce: JoinNonce::from_wire_bytes(jn),
+                net_id: NetId::from_wire_bytes(nid),
+                dev_addr: DevAddr::from_wire_bytes(addr),
+                dl_settings: DLSettings::new(dl),
+                rx_delay: rxd,
+                c_f_list: cfl,
+            };
+            with_buf(buflen, fill, |buf| ja.build_into(buf, &DefaultNetworkCrypto::new(&AES128(k))).map(|b| b.to_vec()))
+        }
+        ["C01", "aes_enc", k, b] => {
+            let (Some(k), Some(b)) = (arr::<16>(k), arr::<16>(b)) else { return "bad-op".into() };
+            // both variants must agree
+            let mut x = b;
+            DefaultCrypto::new(&AES128(k)).encrypt_block(&mut x);
+            let mut y = b;
+            DefaultNetworkCrypto::new(&AES128(k)).encrypt_block(&mut y);
+            if x != y {
+                return "VARIANTS-DIFFER".into();
+            }
+            hex(&x)
+        }
+        ["C01", "aes_dec", k, b] => {
+            let (Some(k), Some(b)) = (arr::<16>(k), arr::<16>(b)) else { return "bad-op".into() };
+            let mut x = b;
+            DefaultNetworkCrypto::new(&AES128(k)).decrypt_block(&mut x);
+            hex(&x)
+        }
+        ["C01", "cmac", k, m] => {
+            let Some(k) = arr::<16>(k) else { return "bad-op".into() };
+            let m = unhex(m);
+            // the full 16-byte tag from the `cmac` crate, initialised the way default_crypto.rs does it
+            use aes::cipher::KeyInit;
+            use cmac::digest::InnerInit;
+            let cipher = aes::Aes128::new_from_slice(&k).unwrap();
+            let mut mac = cmac::Cmac::<aes::Aes128>::inner_init(cipher);
+            cmac::Mac::update(&mut mac, &m);
+            let tag = cmac::Mac::finalize(mac).into_bytes();
+            // and the library's own 4-byte MIC for both variants, with the message split at a data-dependent point
+            let cut = if m.is_empty() { 0 } else { (m[0] as usize) % (m.len() + 1) };
+            let a = DefaultCrypto::new(&AES128(k)).calculate_mic(&m[..cut], &m[cut..]);
+            let b = DefaultNetworkCrypto::new(&AES128(k)).calculate_mic(&m[..cut], &m[cut..]);
+            if a != tag[..4] || b != tag[..4] {
+                return "MIC-NOT-PREFIX-OF-TAG".into();
+            }
+            hex(&tag)
+        }
+        _ => "bad-op".into(),
+    }
 }
 
 pub fn expand(_op: &str) -> Vec<String> {
     vec![]
 }
 
-pub fn run(_tier: &str, _seed: u64, dir: &str) {
-    let sink = Sink::new(dir);
-    sink.finish(dir, "stub", false, serde_json::json!({}));
+const COUNTERS: [u32; 6] = [0, 1, 0xFFFF, 0x10000, 0x1FFFF, 0xFFFF_FFFF];
+
+pub fn pick_fcnt(rng: &mut Rng) -> u32 {
+    if rng.chance(2, 3) {
+        *rng.pick(&COUNTERS)
+    } else {
+        rng.next() as u32
+    }
+}
+
+pub struct DataGen {
+    pub ft: u8,
+    pub flags: u8,
+    pub fopts_len: usize,
+    /// 0 = no payload, 1 = MAC commands (port 0), 2 = application data
+    pub kind: u8,
+    pub pld_len: usize,
+    pub fcnt: u32,
+    pub with_app: bool,
+    /// 0 = exact, 1 = exact-1, 2 = 256, 3 = random
+    pub bufsel: u8,
+}
+
+/// total length the frame would have (without regard to refusals)
+pub fn total_len(g: &DataGen) -> usize {
+    1 + 7 + g.fopts_len + if g.kind == 0 { 0 } else { 1 + g.pld_len } + 4
+}
+
+pub fn data_op(rng: &mut Rng, g: &DataGen) -> String {
+    let addr = rng.bytes(4);
+    let fopts = rng.bytes(g.fopts_len);
+    let pld = if g.kind == 0 { vec![] } else { rng.bytes(g.pld_len) };
+    let port = match g.kind {
+        0 => "-".to_string(),
+        1 => "0".to_string(),
+        _ => (1 + rng.below(255)).to_string(),
+    };
+    let nwk = rng.bytes(16);
+    let app = rng.bytes(16);
+    let total = total_len(g);
+    let buflen = match g.bufsel {
+        0 => total,
+        1 => total.saturating_sub(1),
+        2 => 256,
+        _ => rng.below(300) as usize,
+    };
+    let fill = rng.next() as u8;
+    format!(
+        "C01 data {} {} {} {} {} {} {} {} {} {} {:02x} {}",
+        g.ft,
+        hex(&addr),
+        g.flags,
+        g.fcnt,
+        hex(&fopts),
+        port,
+        hex(&pld),
+        hex(&nwk),
+        if g.with_app { hex(&app) } else { "-".into() },
+        buflen,
+        fill,
+        if rng.chance(1, 2) { "D" } else { "N" }
+    )
+}
+
+fn len_class(n: usize) -> &'static str {
+    match n {
+        0 => "pld0",
+        1..=15 => "pld1-15",
+        16 => "pld16",
+        17..=32 => "pld17-32",
+        33..=64 => "pld33-64",
+        65..=128 => "pld65-128",
+        _ => "pld129-242",
+    }
+}
+
+fn class_of(prefix: &str, g: Option<&DataGen>, ans: &str) -> String {
+    let res = if ans.starts_with("ERR:") || ans == "PANIC" { ans.to_string() } else { "ok".to_string() };
+    match g {
+        Some(g) => format!("{}/{}/{}/{}", prefix, ["none", "mac", "app"][g.kind as usize], len_class(if g.kind == 0 { 0 } else { g.pld_len }), res),
+        None => format!("{}/{}", prefix, res),
+    }
+}
+
+pub fn run(tier: &str, seed: u64, dir: &str) {
+    let mut rng = Rng::new(seed);
+    let mut sink = Sink::new(dir);
+    let thorough = tier == "thorough";
+
+    // 0. the published vectors of tests/lorawan.rs (corpus)
+    for op in [
+        "C01 data 0 04030201 8 1 - 1 68656c6c6f 02020202020202020202020202020202 01010101010101010101010101010101 64 00 D",
+        "C01 data 3 04030201 8 76543 - 42 68656c6c6f206c6f7261 02020202020202020202020202020202 01010101010101010101010101010101 64 00 N",
+        "C01 data 0 04030201 0 0 020305 - - 01010101010101010101010101010101 - 64 00 D",
+    ] {
+        sink.case(op, &eval(op), "data/vector", true);
+    }
+
+    // 1. every payload length 0..=242, several random descriptions each (both payload kinds)
+    let per_len = if thorough { 400 } else { 10 };
+    for len in 0..=242usize {
+        for r in 0..per_len {
+            let kind = if r % 3 == 0 { 1 } else { 2 };
+            let g = DataGen {
+                ft: rng.below(4) as u8,
+                flags: rng.below(16) as u8,
+                fopts_len: if kind == 1 { 0 } else if rng.chance(1, 2) { 0 } else { rng.below(16) as usize },
+                kind,
+                pld_len: len,
+                fcnt: pick_fcnt(&mut rng),
+                with_app: true,
+                bufsel: if rng.chance(3, 4) { [0u8, 2][rng.below(2) as usize] } else { [1u8, 3][rng.below(2) as usize] },
+            };
+            let op = data_op(&mut rng, &g);
+            let a = eval(&op);
+            sink.case(&op, &a, &class_of("data/len-sweep", Some(&g), &a), true);
+        }
+    }
+
+    // 2. the header grid: 4 frame types x 16 flag combinations x FOpts length 0..=17, short payloads
+    let reps = if thorough { 12 } else { 1 };
+    for _ in 0..reps {
+        for ft in 0..4u8 {
+            for flags in 0..16u8 {
+                for fl in 0..=17usize {
+                    let kind = rng.below(3) as u8;
+                    let g = DataGen {
+                        ft,
+                        flags,
+                        fopts_len: fl,
+                        kind,
+                        pld_len: rng.below(20) as usize,
+                        fcnt: pick_fcnt(&mut rng),
+                        with_app: !rng.chance(1, 8),
+                        bufsel: rng.below(4) as u8,
+                    };
+                    let op = data_op(&mut rng, &g);
+                    let a = eval(&op);
+                    sink.case(&op, &a, &class_of("data/header-grid", Some(&g), &a), true);
+                }
+            }
+        }
+    }
+
+    // 3. every counter of the boundary set x frame type x payload kind, buffer exact / exact-1 / 256
+    for &fcnt in COUNTERS.iter().chain([rng.next() as u32, rng.next() as u32].iter()) {
+        for ft in 0..4u8 {
+            for kind in 0..3u8 {
+                for bufsel in 0..3u8 {
+                    let g = DataGen {
+                        ft,
+                        flags: rng.below(16) as u8,
+                        fopts_len: if kind == 1 { 0 } else { rng.below(16) as usize },
+                        kind,
+                        pld_len: rng.below(60) as usize,
+                        fcnt,
+                        with_app: true,
+                        bufsel,
+                    };
+                    let op = data_op(&mut rng, &g);
+                    let a = eval(&op);
+                    sink.case(&op, &a, &class_of("data/counters", Some(&g), &a), true);
+                }
+            }
+        }
+    }
+
+    // 4. descriptions the specification forbids, alone and combined
+    let n_ref = if thorough { 6000 } else { 600 };
+    for _ in 0..n_ref {
+        let kind = rng.below(3) as u8;
+        let g = DataGen {
+            ft: rng.below(4) as u8,
+            flags: rng.below(16) as u8,
+            fopts_len: *rng.pick(&[0usize, 1, 1, 7, 15, 15, 16, 16, 17, 40]),
+            kind,
+            pld_len: *rng.pick(&[0usize, 0, 1, 5, 16, 17, 100, 242]),
+            fcnt: pick_fcnt(&mut rng),
+            with_app: rng.chance(1, 2),
+            bufsel: rng.below(4) as u8,
+        };
+        let op = data_op(&mut rng, &g);
+        let a = eval(&op);
+        sink.case(&op, &a, &class_of("data/refusals", Some(&g), &a), true);
+    }
+
+    // 5. JoinRequest
+    let n_jr = if thorough { 20000 } else { 800 };
+    for i in 0..n_jr {
+        let buflen = match i % 6 {
+            0 => 23,
+            1 => 22,
+            2 => 256,
+            3 => 0,
+            _ => rng.below(40),
+        };
+        let op = format!(
+            "C01 jr {} {} {} {} {} {:02x} {}",
+            hex(&rng.bytes(8)),
+            hex(&rng.bytes(8)),
+            hex(&rng.bytes(2)),
+            hex(&rng.bytes(16)),
+            buflen,
+            rng.next() as u8,
+            if rng.chance(1, 2) { "D" } else { "N" }
+        );
+        let a = eval(&op);
+        sink.case(&op, &a, &class_of("joinrequest", None, &a), true);
+    }
+
+    // 6. JoinAccept: no CFList / type 0 / type 1, RxDelay over the whole u8 range, all DLSettings bytes
+    let n_ja = if thorough { 30000 } else { 1500 };
+    for i in 0..n_ja {
+        let cf = match i % 3 {
+            0 => "-".to_string(),
+            1 => format!("D{}", hex(&rng.bytes(15))),
+            _ => format!("F{}", hex(&rng.bytes(9))),
+        };
+        let need = if i % 3 == 0 { 17 } else { 33 };
+        let buflen = match rng.below(6) {
+            0 => need - 1,
+            1 => 256,
+            2 => rng.below(40),
+            _ => need,
+        };
+        let op = format!(
+            "C01 ja {} {} {} {:02x} {} {} {} {} {:02x}",
+            hex(&rng.bytes(3)),
+            hex(&rng.bytes(3)),
+            hex(&rng.bytes(4)),
+            if i < 256 { i as u8 } else { rng.next() as u8 },
+            if i < 512 { (i % 256) as u8 } else { rng.next() as u8 },
+            cf,
+            hex(&rng.bytes(16)),
+            buflen,
+            rng.next() as u8,
+        );
+        let a = eval(&op);
+        sink.case(&op, &a, &class_of(&format!("joinaccept/cflist{}", &cf[..1]), None, &a), true);
+    }
+
+    // 7. the Lean AES / CMAC against the `aes` / `cmac` crates
+    let n_aes = if thorough { 100_000 } else { 10_000 };
+    for _ in 0..n_aes {
+        let op = format!("C01 aes_enc {} {}", hex(&rng.bytes(16)), hex(&rng.bytes(16)));
+        sink.case(&op, &eval(&op), "aes/encrypt", true);
+        let op = format!("C01 aes_dec {} {}", hex(&rng.bytes(16)), hex(&rng.bytes(16)));
+        sink.case(&op, &eval(&op), "aes/decrypt", true);
+    }
+    for i in 0..n_aes {
+        let len = if i < 600 { i / 2 } else { rng.below(300) as usize };
+        let op = format!("C01 cmac {} {}", hex(&rng.bytes(16)), hex(&rng.bytes(len)));
+        let class = if len == 0 {
+            "cmac/empty"
+        } else if len % 16 == 0 {
+            "cmac/whole-blocks"
+        } else {
+            "cmac/padded"
+        };
+        sink.case(&op, &eval(&op), class, true);
+    }
+    // structured keys / blocks (all-zero, all-ones, single bits)
+    for k in 0..129usize {
+        let mut key = [0u8; 16];
+        let mut blk = [0xffu8; 16];
+        if k < 128 {
+            key[k / 8] = 1 << (k % 8);
+            blk[k / 8] ^= 1 << (k % 8);
+        }
+        for op in [
+            format!("C01 aes_enc {} {}", hex(&key), hex(&blk)),
+            format!("C01 aes_dec {} {}", hex(&key), hex(&blk)),
+            format!("C01 aes_enc {} {}", hex(&blk), hex(&key)),
+            format!("C01 cmac {} {}", hex(&key), hex(&blk[..k % 17])),
+        ] {
+            sink.case(&op, &eval(&op), "aes/structured", true);
+        }
+    }
+
+    sink.finish(
+        dir,
+        "real DataFrame/JoinRequest/JoinAccept::build_into (DefaultCrypto and DefaultNetworkCrypto, seeded choice) vs Lean model vs Lean specification, compared as frame bytes or refusal kind; the rest of the caller's buffer is also checked to be untouched. Generators: every FRMPayload length 0..=242 (random content, both key kinds); 4 frame types x 16 flag combinations x FOpts length 0..=17; counters {0,1,0xFFFF,0x10000,0x1FFFF,2^32-1,random} x types x payload kinds x buffer {exact, exact-1, 256}; forbidden descriptions alone and combined; JoinRequest; JoinAccept without / type-0 / type-1 CFList, all 256 DLSettings and RxDelay bytes; AES-128 encrypt/decrypt blocks and CMAC tags (lengths 0..=299) of the Lean AES vs the aes/cmac crates. Every case is non-trivial (a concrete frame, refusal, block or tag is compared); distinct = distinct op lines.",
+        false,
+        serde_json::json!({"payload_lengths_covered": "0..=242 each", "counters": COUNTERS}),
+    );
 }
